@@ -410,7 +410,15 @@ func SetSlice(dest reflect.Value, objects interface{}) error {
 
 	v := EnsurePackValue(objects)
 	if h, ok := v.Interface().(*_refHolder); ok {
+		// a back-reference to a list: remember the destination for the final value (the list
+		// may still be under construction) and set what is known so far, because a list that
+		// is already complete will not be notified again
 		h.add(dest)
+		cv, err := ConvertSliceValueType(destTyp, h.value)
+		if err != nil {
+			return err
+		}
+		SetValue(dest, cv)
 		return nil
 	}
 
